@@ -100,6 +100,9 @@ class Program:
         self.helpers = []
         self.entries = []
         self.push_constant = None   # (name, type text)
+        self.extras = []            # module-scope variables WITHOUT a binding: (name, declaration text, access statements, position)
+                                    # position = number of resource declarations that precede it
+        self.pc_first = False       # declare the push constant before the resources
         self.uid = 0
 
     def body(self, items):
@@ -110,7 +113,10 @@ class Program:
             lines.append("  var c_%d: i32 = %d;" % (u, u % 3))
             if it[0] == "acc":
                 g = it[1]
-                if g == "pc":
+                if isinstance(g, tuple):      # ("x", k): a module-scope variable without a binding (private / workgroup)
+                    forms = self.extras[g[1]][2]
+                    st = forms[it[2] % len(forms)].replace("{u}", str(u))
+                elif g == "pc":
                     st = ["_ = %s;", "_ = %s;", "let pp_{u} = &%s;"][it[2] % 3].replace("{u}", str(u)) % self.push_constant[0]
                 else:
                     name, kind = self.globals[g][0], self.globals[g][1]
@@ -123,9 +129,13 @@ class Program:
 
     def render(self):
         out = [PRELUDE]
-        for name, kind, grp, b in self.globals:
+        if self.push_constant and self.pc_first:
+            out.append("var<push_constant> %s: %s;" % self.push_constant)
+        for gi, (name, kind, grp, b) in enumerate(self.globals):
+            out.extend(x[1] for x in self.extras if x[3] == gi)
             out.append("@group(%d) @binding(%d) %s" % (grp, b, RES[kind][0].format(n=name)))
-        if self.push_constant:
+        out.extend(x[1] for x in self.extras if x[3] >= len(self.globals))
+        if self.push_constant and not self.pc_first:
             out.append("var<push_constant> %s: %s;" % self.push_constant)
         for j, items in enumerate(self.helpers):
             b = self.body(items)
@@ -141,7 +151,7 @@ class Program:
         """per global index (and 'pc'): set of stages that statically access it."""
         direct, calls = [], []
         for items in self.helpers:
-            direct.append({it[1] for it in items if it[0] == "acc"})
+            direct.append({it[1] for it in items if it[0] == "acc" and not isinstance(it[1], tuple)})
             calls.append({it[1] for it in items if it[0] == "call"})
         clos = []
         for j in range(len(self.helpers)):   # helpers only call smaller indices
@@ -151,7 +161,7 @@ class Program:
             clos.append(s)
         res = {}
         for name, stage, items in self.entries:
-            s = {it[1] for it in items if it[0] == "acc"}
+            s = {it[1] for it in items if it[0] == "acc" and not isinstance(it[1], tuple)}
             for it in items:
                 if it[0] == "call":
                     s |= clos[it[1]]
@@ -170,7 +180,7 @@ def gname(rng, i):
     return rng.choice(GLOBAL_NAME_STYLES) % i
 
 
-def random_program(rng, n_globals=None, n_helpers=None, depth_bias=False, stages=None, pc=False):
+def random_program(rng, n_globals=None, n_helpers=None, depth_bias=False, stages=None, pc=False, extras=True):
     p = Program()
     kinds = list(RES)
     ng = n_globals if n_globals is not None else rng.randint(1, 6)
@@ -190,6 +200,14 @@ def random_program(rng, n_globals=None, n_helpers=None, depth_bias=False, stages
     if pc:
         p.push_constant = (rng.choice(PC_NAMES), rng.choice(["f32", "vec4<f32>", "mat4x4<f32>", "US", "vec3<f32>", "vec3<u32>", "vec2<i32>", "array<vec3<f32>, 2>", "mat3x3<f32>"]))
     nh = n_helpers if n_helpers is not None else rng.randint(0, 6)
+    # module-scope variables that are NOT resources (no @group / @binding), declared before / between / after the resources:
+    # they take part in the stage walk like any global but get no layout entry and must not disturb those of the others
+    nx = rng.choice([0, 0, 1, 2]) if extras else 0
+    for k in range(nx):
+        nm = "%s%d" % (rng.choice(["scratch", "privState", "_tmp", "Counter"]), k)
+        p.extras.append((nm, "var<private> %s: f32;" % nm, ["_ = %s;" % nm, "%s = 2.0;" % nm, "let xp_{u} = &%s;" % nm],
+                         rng.choice([0, 0, rng.randint(0, ng)])))
+    p.pc_first = bool(pc) and rng.random() < 0.4
 
     def items(maxcall, n):
         its = []
@@ -198,7 +216,7 @@ def random_program(rng, n_globals=None, n_helpers=None, depth_bias=False, stages
                 j = maxcall - 1 if depth_bias and rng.random() < 0.7 else rng.randrange(maxcall)
                 its.append(("call", j, rng.choice(CALL_FORMS), rng.choice(PLACEMENTS)))
             else:
-                targets = list(range(ng)) + (["pc"] if pc else [])
+                targets = list(range(ng)) + (["pc"] if pc else []) + [("x", k) for k in range(len(p.extras))]
                 if not targets:
                     continue
                 its.append(("acc", rng.choice(targets), rng.randrange(3), rng.choice(PLACEMENTS)))
@@ -267,4 +285,39 @@ def deep_chain_program(depth, form="let", target=0):
     p.entries = [("deep", "compute", [("call", depth - 1, form, "top")]),
                  ("vs_other", "vertex", [("acc", 1, 0, "top")]),
                  ("fs_other", "fragment", [("acc", 2, 0, "top")])]
+    return p
+
+
+def single_stage_late_user_program(rng, stage="compute"):
+    """every entry point has the same stage; a variable without a binding (workgroup / private) is used by the first
+    entry point together with all resources but one; the last resource is first used by a LATER entry point. The
+    visibility of that resource is the stage, like everybody else's."""
+    p = Program()
+    nres = rng.randint(2, 4)
+    kinds = ["uniform", "storage_ro", "storage_rw", "uniform_struct"]
+    for i in range(nres):
+        p.globals.append((gname(rng, i), rng.choice(kinds), 0, i))
+    if stage == "compute":
+        p.extras.append(("tile", "var<workgroup> tile: array<u32, 4>;", ["_ = tile[0];", "tile[1] = 3u;"], rng.choice([0, nres])))
+    p.extras.append(("acc0", "var<private> acc0: f32;", ["_ = acc0;", "acc0 = 1.0;"], rng.choice([0, 1, nres])))
+    first = [("acc", g, 0, "top") for g in range(nres - 1)] + [("acc", ("x", k), 0, "top") for k in range(len(p.extras))]
+    rng.shuffle(first)
+    p.entries = [("k0_first", stage, first), ("k1_mid", stage, [("acc", 0, 1, "top")]),
+                 ("k2_late", stage, [("acc", nres - 1, 0, rng.choice(PLACEMENTS))])]
+    return p
+
+
+def pc_only_program(rng):
+    """a module WITHOUT any resource binding whose push constant is used by a strict subset of the stages that have an
+    entry point (directly or through a helper)"""
+    p = Program()
+    p.push_constant = (rng.choice(PC_NAMES), rng.choice(["f32", "vec4<f32>", "mat4x4<f32>", "US"]))
+    p.helpers = [[("acc", "pc", rng.randrange(3), rng.choice(PLACEMENTS))]]
+    stages = rng.choice([["vertex", "fragment"], ["vertex", "fragment", "compute"], ["fragment", "compute"], ["vertex", "compute"]])
+    users = rng.sample(stages, rng.randint(1, len(stages) - 1))
+    for k, st in enumerate(stages):
+        its = []
+        if st in users:
+            its = [("call", 0, rng.choice(CALL_FORMS), rng.choice(PLACEMENTS))] if rng.random() < 0.5 else [("acc", "pc", 0, rng.choice(PLACEMENTS))]
+        p.entries.append(("e%d_%s" % (k, st[:2]), st, its))
     return p
